@@ -8,8 +8,8 @@ use crate::util::{bh2_len, res_text};
 use ssdeep::{Generator, GeneratorError};
 
 pub const MAX_INPUT: u64 = 192u64 << 30;
-pub const N_FORMS: u64 = 6;
-pub const FORM_NAMES: [&str; 6] = ["update", "update_by_iter", "update_by_byte", "+=&[u8]", "+=&[u8;5]/+=u8", "+=u8"];
+pub const N_FORMS: u64 = 8;
+pub const FORM_NAMES: [&str; 8] = ["update", "update_by_iter", "update_by_byte", "+=&[u8]", "+=&[u8;5]/+=u8", "+=u8", "update_by_iter(filter)", "update_by_iter(flat_map)"];
 
 pub fn feed(g: &mut Generator, form: u64, chunk: &[u8]) {
     match form % N_FORMS {
@@ -37,10 +37,18 @@ pub fn feed(g: &mut Generator, form: u64, chunk: &[u8]) {
                 *g += b;
             }
         }
-        _ => {
+        5 => {
             for &b in chunk {
                 *g += b;
             }
+        }
+        6 => {
+            // size_hint().1 == Some(len) but the lower bound is 0
+            g.update_by_iter(chunk.iter().copied().filter(|_| true));
+        }
+        _ => {
+            // no useful size_hint at all
+            g.update_by_iter(chunk.chunks(3).flat_map(|c| c.iter().copied()));
         }
     }
 }
